@@ -39,6 +39,20 @@ class ListE:
         return ListE(self.items)
 
 
+class DictViewE(ListE):
+    """d.keys() / d.values() / d.items(): a LIVE view of the dictionary `dref` (which = "keys" | "values" | "items").
+    St.get() recomputes `items` from the dictionary's current contents at every access, so a view taken before an
+    insertion shows the new entry and a loop over d.items() reads the current values, as in CPython.  It is NOT a list:
+    subscripts, list methods, + and == on a view are refused (Unsupported) - only iteration, len, `in`, truth."""
+
+    def __init__(self, dref, which, items=()):
+        ListE.__init__(self, items)
+        self.dref, self.which = dref, which
+
+    def copy(self):
+        return DictViewE(self.dref, self.which, self.items)
+
+
 class DequeE(ListE):
     kind = "deque"
 
